@@ -502,8 +502,14 @@ func checkWhole(t fataler, r *ref, obj *object.Object) {
 		rebuilt = append(rebuilt, iprotobuf.TagBytes3)
 		rebuilt = append(rebuilt, e[phdr.From+1:phdr.To]...)
 		par := r.full.Parent()
-		if want := par.Marshal(); !bytes.Equal(rebuilt, want) {
-			t.Fatalf("parent rebuilt from bounds (%d bytes) differs from decoded parent's encoding (%d bytes)", len(rebuilt), len(want))
+		// (compare after decoding: an all-zero parent header is encoded as an empty
+		// field inside the split header but omitted by Object.Marshal)
+		var reb object.Object
+		if err := reb.Unmarshal(rebuilt); err != nil {
+			t.Fatalf("parent rebuilt from bounds does not decode: %v", err)
+		}
+		if got, want := reb.Marshal(), par.Marshal(); !bytes.Equal(got, want) {
+			t.Fatalf("parent rebuilt from bounds (%d bytes) differs from decoded parent's encoding (%d bytes)", len(got), len(want))
 		}
 		// parent header fields through the header readers
 		ph := e[phdr.ValueFrom:phdr.To]
